@@ -51,7 +51,13 @@ func ParseRefPricing(text string) (RefPricing, error) {
 	if err := json.Unmarshal([]byte(text), &raw); err != nil {
 		return p, err
 	}
+	scale := int64(1)
 	switch {
+	case strings.HasSuffix(raw.Price, "kstake"):
+		// quoted in the token's main unit: 1 kstake = 1000 stake
+		p.Denom = "stake"
+		scale = 1000
+		raw.Price = strings.TrimSuffix(raw.Price, "kstake") + "stake"
 	case strings.HasSuffix(raw.Price, "stake"):
 		p.Denom = "stake"
 	case strings.HasSuffix(raw.Price, "point"):
@@ -64,6 +70,7 @@ func ParseRefPricing(text string) (RefPricing, error) {
 	if !ok || r.Sign() < 0 {
 		return p, fmt.Errorf("bad price %q", raw.Price)
 	}
+	r.Mul(r, new(big.Rat).SetInt64(scale))
 	fl := new(big.Int).Quo(r.Num(), r.Denom())
 	p.BaseBig = fl
 	if !fl.IsInt64() {
